@@ -15,8 +15,10 @@ import (
 
 // Exit codes reserved by the child.
 const (
-	ExitHang  = 98
-	ExitUsage = 97
+	ExitHang = 98
+	// memLimitBytes bounds the live heap of one child process
+	memLimitBytes = 3 << 30
+	ExitUsage     = 97
 )
 
 var (
@@ -79,6 +81,15 @@ func ChildMain(args []string) int {
 				buf := make([]byte, 1<<20)
 				n := runtime.Stack(buf, true)
 				os.Stderr.Write(buf[:n])
+				os.Exit(ExitHang)
+			}
+			// memory bound: no case of any check needs more than a fraction of
+			// this; a case that reaches it is growing without bound and would
+			// take the machine down before the time limit fires
+			var ms runtime.MemStats
+			runtime.ReadMemStats(&ms)
+			if st != 0 && ms.HeapAlloc > memLimitBytes {
+				fmt.Fprintf(os.Stderr, "WATCHDOG: case %d holds %d MiB of heap (limit %d MiB)\n", curCaseIdx.Load(), ms.HeapAlloc>>20, memLimitBytes>>20)
 				os.Exit(ExitHang)
 			}
 		}
